@@ -613,13 +613,14 @@ type c11ColSummary struct {
 	pagesWithStats, pages  int // non-trivial pages only
 	maxIdxLen              int
 	minmax, dep            map[bool]bool // over chunks holding non-null values
+	colIndex               map[bool]bool // the chunk has a column index
 	maxRows                int64
 }
 
 func c11Summarise(info [][]c11Chunk, ncol int) []c11ColSummary {
 	out := make([]c11ColSummary, ncol)
 	for i := range out {
-		out[i] = c11ColSummary{codecs: map[int]bool{}, ptypes: map[int]bool{}, encs: map[int]bool{}, bloom: map[bool]bool{}, minmax: map[bool]bool{}, dep: map[bool]bool{}}
+		out[i] = c11ColSummary{codecs: map[int]bool{}, ptypes: map[int]bool{}, encs: map[int]bool{}, bloom: map[bool]bool{}, minmax: map[bool]bool{}, dep: map[bool]bool{}, colIndex: map[bool]bool{}}
 	}
 	for _, rg := range info {
 		for ci := range rg {
@@ -628,6 +629,7 @@ func c11Summarise(info [][]c11Chunk, ncol int) []c11ColSummary {
 			}
 			c, s := &rg[ci], &out[ci]
 			s.codecs[c.Codec] = true
+			s.colIndex[c.CIOff != 0] = true
 			if c.Rows > s.maxRows {
 				s.maxRows = c.Rows
 			}
@@ -728,6 +730,9 @@ func c11Settings(b *c11Cfg, got, ref [][]c11Chunk, ncol int) (aspects []string, 
 		}
 		if g[ci].maxIdxLen > b.IndexLimit && g[ci].maxIdxLen > r[ci].maxIdxLen {
 			stat = append(stat, fmt.Sprintf("index-limit %s: column index value of %d bytes, limit %d, longest on the row path %d", col, g[ci].maxIdxLen, b.IndexLimit, r[ci].maxIdxLen))
+		}
+		if !subset(g[ci].colIndex, r[ci].colIndex) {
+			stat = append(stat, fmt.Sprintf("column-index-presence %s: column index present {%s} row path {%s}", col, keys(g[ci].colIndex), keys(r[ci].colIndex)))
 		}
 		if len(r[ci].minmax) > 0 && !subset(g[ci].minmax, r[ci].minmax) {
 			stat = append(stat, fmt.Sprintf("chunk-bounds %s: min/max present {%s} row path {%s}", col, keys(g[ci].minmax), keys(r[ci].minmax)))
